@@ -205,8 +205,13 @@ def axis_routing(ctx, report):
         if len(ret) == 1 and isinstance(ret[0], ast.Call) and call_name(ret[0]) == cname:
             order = []
             for a in ret[0].args:
-                m = re.match(r"self\.(\w+)\.as_percentage_of", src(a))
+                from ..core.astutil import resolve_local as _rl
+                m = re.match(r"self\.(\w+)\.as_percentage_of", src(_rl(fn, a.value if isinstance(a, ast.keyword) else a)))
                 order.append(m.group(1) if m else None)
+            if None in order or ret[0].keywords:
+                report.info("R-STRUCTURE", fn, f"{cname}.as_percentage_of: argument routing not read (spelling not recognised)",
+                            {"clause_decided_by": "R-GRID on the layout grids (webvtt_layout_fold, abs_layout_fold)"}, None)
+                continue
             report.check(order == init.params[1:1 + len(order)], "R-FIELD-ROUTING", fn,
                          f"{cname}: converted parts are passed in the constructor's parameter order",
                          {"found": order, "constructor": init.params[1:]}, "2")
